@@ -5,6 +5,7 @@ package main
 
 import (
 	"bytes"
+	"encoding/json"
 	"fmt"
 	"go/ast"
 	"go/parser"
@@ -12,6 +13,7 @@ import (
 	"go/token"
 	"os"
 	"path/filepath"
+	"regexp"
 	"sort"
 	"strings"
 )
@@ -21,6 +23,9 @@ type factSet struct {
 	files []*ast.File
 	funcs map[string]*ast.FuncDecl // "Recv.name" or "name"
 	lists map[string][]string
+	// single-use unexported helpers: full name -> the function that calls it; bare name -> declaration
+	owner      map[string]string
+	helperDecl map[string]*ast.FuncDecl
 }
 
 func repoDir() string {
@@ -63,10 +68,109 @@ func loadFacts(dir string) (*factSet, error) {
 			if !ok || fd.Body == nil {
 				continue
 			}
+			canonicalNames(fd)
+			dropEmptyDefaults(fd)
 			fs.funcs[funcName(fd)] = fd
 		}
 	}
 	return fs, nil
+}
+
+// dropEmptyDefaults removes `default:` arms without statements from switch and type-switch
+// statements (they do nothing; NOT from select, where a default arm means "do not block").
+func dropEmptyDefaults(fd *ast.FuncDecl) {
+	strip := func(b *ast.BlockStmt) {
+		out := b.List[:0]
+		for _, st := range b.List {
+			if cc, ok := st.(*ast.CaseClause); ok && cc.List == nil && len(cc.Body) == 0 {
+				continue
+			}
+			out = append(out, st)
+		}
+		b.List = out
+	}
+	ast.Inspect(fd.Body, func(x ast.Node) bool {
+		switch v := x.(type) {
+		case *ast.SwitchStmt:
+			strip(v.Body)
+		case *ast.TypeSwitchStmt:
+			strip(v.Body)
+		}
+		return true
+	})
+}
+
+// canonicalNames renames, in place, the parameters (a1, a2, …), named results (o1, …) and
+// the variables declared inside the body (v1, v2, …; closure parameters included) of a
+// function, in order of declaration, so that the facts do not depend on how locals are called
+// (renaming a local is not a change of the code's structure). Receivers, fields, package-level
+// names and labels keep their names. The parser's object resolution links every use to its
+// declaration.
+func canonicalNames(fd *ast.FuncDecl) {
+	type decl struct {
+		obj *ast.Object
+		pos token.Pos
+	}
+	seen := map[*ast.Object]bool{}
+	var params, results, locals []decl
+	inRange := func(p token.Pos, n ast.Node) bool { return n != nil && n.Pos() <= p && p < n.End() }
+	var paramsNode, resultsNode ast.Node
+	if fd.Type.Params != nil {
+		paramsNode = fd.Type.Params
+	}
+	if fd.Type.Results != nil {
+		resultsNode = fd.Type.Results
+	}
+	collect := func(id *ast.Ident) {
+		o := id.Obj
+		if o == nil || o.Kind != ast.Var || seen[o] || o.Name == "_" {
+			return
+		}
+		p := o.Pos()
+		switch {
+		case paramsNode != nil && inRange(p, paramsNode):
+			seen[o] = true
+			params = append(params, decl{o, p})
+		case resultsNode != nil && inRange(p, resultsNode):
+			seen[o] = true
+			results = append(results, decl{o, p})
+		case inRange(p, fd.Body):
+			seen[o] = true
+			locals = append(locals, decl{o, p})
+		}
+	}
+	ast.Inspect(fd.Type, func(x ast.Node) bool {
+		if id, ok := x.(*ast.Ident); ok {
+			collect(id)
+		}
+		return true
+	})
+	ast.Inspect(fd.Body, func(x ast.Node) bool {
+		if id, ok := x.(*ast.Ident); ok {
+			collect(id)
+		}
+		return true
+	})
+	newName := map[*ast.Object]string{}
+	for _, grp := range []struct {
+		prefix string
+		ds     []decl
+	}{{"a", params}, {"o", results}, {"v", locals}} {
+		sort.Slice(grp.ds, func(i, j int) bool { return grp.ds[i].pos < grp.ds[j].pos })
+		for i, d := range grp.ds {
+			newName[d.obj] = fmt.Sprintf("%s%d", grp.prefix, i+1)
+		}
+	}
+	rename := func(x ast.Node) bool {
+		if id, ok := x.(*ast.Ident); ok && id.Obj != nil {
+			if n, ok := newName[id.Obj]; ok {
+				id.Name = n
+			}
+		}
+		return true
+	}
+	ast.Inspect(fd.Type, rename)
+	ast.Inspect(fd.Body, rename)
 }
 
 func funcName(fd *ast.FuncDecl) string {
@@ -88,7 +192,116 @@ func (fs *factSet) text(n ast.Node) string {
 	return strings.Join(strings.Fields(b.String()), " ")
 }
 
-func (fs *factSet) add(key, val string) { fs.lists[key] = append(fs.lists[key], val) }
+// inventories keyed by function name: a fact found in a single-use unexported helper is
+// attributed to the function that calls it (extracting a helper does not change what the
+// calling function does)
+var inventoryKeys = map[string]bool{"sends": true, "recvs": true, "closes": true, "makechans": true, "calls": true,
+	"gostmts": true, "ctxchecks": true, "sendcalls": true}
+
+func (fs *factSet) add(key, val string) {
+	if inventoryKeys[key] {
+		if i := strings.Index(val, "|"); i > 0 {
+			val = fs.ownerOf(val[:i]) + val[i:]
+		}
+	}
+	fs.lists[key] = append(fs.lists[key], val)
+}
+
+func (fs *factSet) ownerOf(fn string) string {
+	for n := 0; n < 8; n++ {
+		o, ok := fs.owner[fn]
+		if !ok {
+			return fn
+		}
+		fn = o
+	}
+	return fn
+}
+
+// knownFuncs: the functions of the package at the time the expectations were frozen
+// (doc/funcs.json, written by `harness freeze-facts`); nil if there is no such list.
+func knownFuncs() map[string]bool {
+	b, err := os.ReadFile(filepath.Join(verifDir(), "doc", "funcs.json"))
+	if err != nil {
+		return nil
+	}
+	var names []string
+	if json.Unmarshal(b, &names) != nil {
+		return nil
+	}
+	m := map[string]bool{}
+	for _, n := range names {
+		m[n] = true
+	}
+	return m
+}
+
+// calleeName: the bare name a call refers to (method or function).
+func calleeName(c *ast.CallExpr) string {
+	switch f := c.Fun.(type) {
+	case *ast.SelectorExpr:
+		return f.Sel.Name
+	case *ast.Ident:
+		return f.Name
+	}
+	return ""
+}
+
+// findHelpers: unexported functions with exactly one call site in the package, which is a
+// plain call (not go / defer / inside a function literal). owner[helper] = calling function.
+func (fs *factSet) findHelpers() {
+	fs.owner = map[string]string{}
+	fs.helperDecl = map[string]*ast.FuncDecl{}
+	type site struct {
+		caller string
+		plain  bool
+	}
+	sites := map[string][]site{}
+	for name, fd := range fs.funcs {
+		var walk func(n ast.Node, plain bool)
+		walk = func(n ast.Node, plain bool) {
+			ast.Inspect(n, func(x ast.Node) bool {
+				switch v := x.(type) {
+				case *ast.GoStmt:
+					walk(v.Call, false)
+					return false
+				case *ast.DeferStmt:
+					walk(v.Call, false)
+					return false
+				case *ast.FuncLit:
+					walk(v.Body, false)
+					return false
+				case *ast.CallExpr:
+					if cn := calleeName(v); cn != "" {
+						sites[cn] = append(sites[cn], site{name, plain})
+					}
+				}
+				return true
+			})
+		}
+		walk(fd.Body, true)
+	}
+	byBare := map[string][]string{}
+	for name, fd := range fs.funcs {
+		byBare[fd.Name.Name] = append(byBare[fd.Name.Name], name)
+	}
+	known := knownFuncs()
+	for bare, names := range byBare {
+		if len(names) != 1 || bare == "" || !(bare[0] >= 'a' && bare[0] <= 'z') {
+			continue
+		}
+		if known == nil || known[names[0]] {
+			// a function that existed when the expectations were frozen keeps its own identity:
+			// only helpers extracted SINCE then are folded into their caller
+			continue
+		}
+		ss := sites[bare]
+		if len(ss) == 1 && ss[0].plain && ss[0].caller != names[0] {
+			fs.owner[names[0]] = ss[0].caller
+			fs.helperDecl[bare] = fs.funcs[names[0]]
+		}
+	}
+}
 
 // isDoneRecv: `<-X.Done()`
 func isDoneRecv(e ast.Expr) bool {
@@ -273,7 +486,7 @@ func (fs *factSet) callOrder(key, fn string) {
 					walk(v.Init, cond)
 				}
 				walk(v.Cond, cond)
-				c := fs.text(v.Cond)
+				c := anonLocals(fs.text(v.Cond)) // (which local holds the value is not part of the call order)
 				walk(v.Body, cond+"["+c+"]")
 				if v.Else != nil {
 					walk(v.Else, cond+"[!"+c+"]")
@@ -284,6 +497,14 @@ func (fs *factSet) callOrder(key, fn string) {
 				if _, isLit := v.Fun.(*ast.FuncLit); isLit {
 					return true
 				}
+				if hd, ok := fs.helperDecl[calleeName(v)]; ok && !strings.Contains(cond, "{lit}") {
+					// a single-use helper: what it calls is what this function calls, here
+					for _, a := range v.Args {
+						walk(a, cond)
+					}
+					walk(hd.Body, cond)
+					return false
+				}
 				plain := false
 				if id, ok := v.Fun.(*ast.Ident); ok && id.Obj == nil && !isBuiltinName(id.Name) {
 					plain = true // a package-level function such as openInputTTY or newRenderer
@@ -293,7 +514,7 @@ func (fs *factSet) callOrder(key, fn string) {
 					if t == "p.shutdown" || t == "close" || t == "p.initCancelReader" || strings.HasPrefix(t, "atomic.") || t == "r.execute" {
 						as := make([]string, len(v.Args))
 						for i, a := range v.Args {
-							as[i] = fs.text(a)
+							as[i] = anonLocals(fs.text(a))
 						}
 						arg = "(" + strings.Join(as, ",") + ")"
 					}
@@ -305,6 +526,28 @@ func (fs *factSet) callOrder(key, fn string) {
 	}
 	walk(fd.Body, "")
 }
+
+// isContextParam: is `name` a parameter of fd whose declared type is context.Context?
+func isContextParam(fd *ast.FuncDecl, name string) bool {
+	if fd.Type.Params == nil {
+		return false
+	}
+	for _, f := range fd.Type.Params.List {
+		if s, ok := f.Type.(*ast.SelectorExpr); ok && s.Sel.Name == "Context" {
+			for _, n := range f.Names {
+				if n.Name == name {
+					return true
+				}
+			}
+		}
+	}
+	return false
+}
+
+var localNameRe = regexp.MustCompile(`\b[avo][0-9]+\b`)
+
+// anonLocals replaces the canonical names of parameters / results / locals by `_`.
+func anonLocals(s string) string { return localNameRe.ReplaceAllString(s, "_") }
 
 func isBuiltinName(n string) bool {
 	switch n {
@@ -323,7 +566,7 @@ func (fs *factSet) ctxChecks() {
 			if c, ok := x.(*ast.CallExpr); ok {
 				if s, ok := c.Fun.(*ast.SelectorExpr); ok && (s.Sel.Name == "Err" || s.Sel.Name == "Done") {
 					t := fs.text(s.X)
-					if strings.HasSuffix(t, "ctx") {
+					if strings.HasSuffix(t, "ctx") || isContextParam(fd, t) {
 						fs.add("ctxchecks", fmt.Sprintf("%s|%s.%s", name, t, s.Sel.Name))
 					}
 				}
@@ -426,8 +669,8 @@ func (fs *factSet) bufSize() {
 		return
 	}
 	ast.Inspect(fd.Body, func(x ast.Node) bool {
-		if vs, ok := x.(*ast.ValueSpec); ok && len(vs.Names) == 1 && vs.Names[0].Name == "buf" {
-			if at, ok := vs.Type.(*ast.ArrayType); ok && at.Len != nil {
+		if vs, ok := x.(*ast.ValueSpec); ok && len(vs.Names) == 1 && len(fs.lists["bufsize"]) == 0 {
+			if at, ok := vs.Type.(*ast.ArrayType); ok && at.Len != nil && fs.text(at.Elt) == "byte" {
 				fs.add("bufsize", fs.text(at.Len))
 			}
 		}
@@ -440,6 +683,7 @@ func collectFacts(dir string) (*factSet, error) {
 	if err != nil {
 		return nil, err
 	}
+	fs.findHelpers()
 	fs.channelOps()
 	fs.callSites()
 	fs.goStmts()
@@ -493,6 +737,8 @@ func (fs *factSet) sendCalls() {
 // each method as ONE atomic step (write / flush / the mode methods exclude one
 // another); that is an assumption about this inventory.
 func (fs *factSet) lockDiscipline() {
+	known := knownFuncs()
+	isNew := func(full string) bool { return known != nil && !known[full] }
 	var names []string
 	for name := range fs.funcs {
 		if strings.HasPrefix(name, "standardRenderer.") {
@@ -500,8 +746,11 @@ func (fs *factSet) lockDiscipline() {
 		}
 	}
 	sort.Strings(names)
-	for _, name := range names {
-		var ev []string
+	// events of a function; helpers added since the expectations were frozen are spliced in at
+	// their call sites (their deferred unlock happens when they return, i.e. right there)
+	var events func(name string, depth int) []string
+	events = func(name string, depth int) []string {
+		var ev, deferred []string
 		inDefer := map[ast.Node]bool{}
 		ast.Inspect(fs.funcs[name].Body, func(x ast.Node) bool {
 			switch v := x.(type) {
@@ -513,16 +762,33 @@ func (fs *factSet) lockDiscipline() {
 				if inDefer[v] {
 					pre = "defer "
 				}
+				if strings.HasPrefix(t, "r.") && depth < 4 {
+					if callee := "standardRenderer." + strings.TrimPrefix(t, "r."); fs.funcs[callee] != nil && isNew(callee) {
+						ev = append(ev, events(callee, depth+1)...)
+						return true
+					}
+				}
 				switch {
 				case strings.HasSuffix(t, "mtx.Lock"), strings.HasSuffix(t, "mtx.Unlock"):
-					ev = append(ev, pre+t[strings.LastIndex(t, ".")+1:])
+					op := t[strings.LastIndex(t, ".")+1:]
+					if depth > 0 && pre != "" {
+						deferred = append([]string{op}, deferred...) // runs when the helper returns
+					} else {
+						ev = append(ev, pre+op)
+					}
 				case t == "r.out.Write", t == "r.execute", t == "io.WriteString", t == "r.flush", t == "r.buf.Reset", t == "r.buf.WriteString":
 					ev = append(ev, pre+t)
 				}
 			}
 			return true
 		})
-		if len(ev) > 0 {
+		return append(ev, deferred...)
+	}
+	for _, name := range names {
+		if isNew(name) {
+			continue // spliced into its callers
+		}
+		if ev := events(name, 0); len(ev) > 0 {
 			fs.add("locks", strings.TrimPrefix(name, "standardRenderer.")+"|"+strings.Join(ev, ";"))
 		}
 	}
@@ -578,6 +844,19 @@ func cmdFreezeFacts() int {
 	if err := os.WriteFile(filepath.Join(verifDir(), "lean", "Tea", "Doc", "Facts.lean"), b, 0o644); err != nil {
 		fmt.Fprintln(os.Stderr, err)
 		return 1
+	}
+	// the functions that exist now (helpers extracted later are folded into their callers)
+	if fs, err := loadFacts(repoDir()); err == nil {
+		var names []string
+		for n := range fs.funcs {
+			names = append(names, n)
+		}
+		sort.Strings(names)
+		jb, _ := json.MarshalIndent(names, "", " ")
+		if err := os.WriteFile(filepath.Join(verifDir(), "doc", "funcs.json"), jb, 0o644); err != nil {
+			fmt.Fprintln(os.Stderr, err)
+			return 1
+		}
 	}
 	return 0
 }
